@@ -21,8 +21,8 @@ namespace Multi
 abbrev Mem (α : Type) := Int → α
 
 namespace Mem
-/-- `*p = x` -/
-def write (m : Mem α) (a : Int) (x : α) : Mem α := fun b => if b = a then x else m b
+/-- `*p = x`  (`noinline`: keeps the compiled driver from moving the evaluation of `x` into the closure) -/
+@[noinline] def write (m : Mem α) (a : Int) (x : α) : Mem α := fun b => if b = a then x else m b
 end Mem
 
 /-! ### loops over `elements_iterator_t`
